@@ -17,7 +17,7 @@ ASSUMPTIONS = ['conical panels: reference uses the package geometry r = r_bot - 
 RTOL = 1e-11
 SIG_CONE = 'C02:kpanel-sin-alpha-terms-have-sign-of-growing-radius'
 
-ORDS = [(4, 4), (1, 1), (2, 3), (3, 2), (5, 5), (8, 3), (3, 8), (12, 2), (2, 12), (30, 1), (1, 30)]
+ORDS = [(4, 4), (1, 1), (2, 3), (3, 2), (5, 5), (8, 3), (3, 8), (12, 2), (2, 12), (30, 3), (3, 30), (16, 3), (3, 16), (1, 30)]
 COORDS = dict(
     model=['plate', 'cpanel', 'plate_w', 'kpanel'],
     alpha=[0.0, 15.0, 35.0, 59.0, -20.0],
@@ -112,8 +112,23 @@ def check_case(case):
         S = S + np.abs(ref.kG(abs(Nxx), abs(Nyy), abs(Nxy)))
     Kr_g, S_g = pan.rp.embed(Kr, size, r0, c0), pan.rp.embed(S, size, r0, c0)
     got, exp = (K, Kr_g) if cfg['finalize'] else (np.triu(K), np.triu(Kr_g))
-    ratio, idx = pan.worst(got, exp, S_g, RTOL)
-    if ratio > 1:
+    tri = (lambda A: A) if cfg['finalize'] else np.triu
+
+    def build(rv):
+        E, Sc = rv.k0(F), rv.k0_scale(F)
+        if cfg['preload']:
+            E = E + rv.kG(*cfg['preload'])
+            Sc = Sc + np.abs(rv.kG(*[abs(v) for v in cfg['preload']]))
+        return tri(pan.rp.embed(E, size, r0, c0)), tri(pan.rp.embed(Sc, size, r0, c0))
+    status, ratio, idx, info = pan.tiered(ref, got, exp, tri(S_g), RTOL, build)
+    table_finding = status == 'known'
+    if status == 'known':
+        fails.append(fail('calc_k0 differs from the strain-energy Hessian by more than 1e-9 of the natural entry scale (explained by the '
+                          'sub-interval integral tables alone: the same formula with the package\'s own table values reproduces calc_k0)',
+                          sig=pan.SIG_TABLES, cfg=cfg, index=idx, got=float(got[idx]), expected=float(exp[idx]), **info))
+    elif status == 'violation' and info:
+        fails.append(fail('calc_k0: ' + info['kind'], sig=None, cfg=cfg, index=idx, **{k: v for k, v in info.items() if k != 'kind'}))
+    elif status == 'violation':
         sig = None
         if cfg['model'] == 'kpanel' and cfg['alphadeg'] != 0:
             # explained-by test for the known finding: kernel uses the strain terms of a cone whose radius GROWS with x
@@ -135,7 +150,7 @@ def check_case(case):
     if cfg['finalize']:
         if np.abs(K - K.T).max() > 0:
             fails.append(fail('finalised k0 not symmetric', sig=None, cfg=cfg))
-        if not cfg['preload']:
+        if not cfg['preload'] and not table_finding:
             act = ref.active()
             Kl = K[r0:r0 + nloc, c0:c0 + nloc][np.ix_(act, act)]
             d = np.sqrt(np.abs(np.diag(Kl)))
